@@ -113,10 +113,10 @@ theorem rswWF_of_inv {r : RSW.RSWide} {s : List Bool} (h : RSW.Inv r s) : Codec.
   · intro bit
     obtain ⟨smp, hint, e, hh⟩ := h.samples bit
     rw [e]
-    have hp : RSW.per bit = 8192 := by cases bit <;> rfl
+    -- no assumption on the period: a quotient is at most its numerator
     have hC := C_le bit s (512 * nLines r.bv)
-    have hd : C bit s (512 * nLines r.bv) / RSW.per bit ≤ 512 * nLines r.bv / 8192 := by
-      rw [hp]; exact Nat.div_le_div_right hC
+    have hd : C bit s (512 * nLines r.bv) / RSW.per bit ≤ 512 * nLines r.bv :=
+      Nat.le_trans (Nat.div_le_self _ _) hC
     rw [p43] at hlen
     exact hint_samples_wf hh _ (nLines r.bv)
       (by rw [p64]; show C bit s (512 * nLines r.bv) / RSW.per bit + 2 < _; omega)
@@ -174,10 +174,12 @@ theorem rsnWF_of_inv {r : RSN.RSNarrow} {s : List Bool} (h : RSN.Inv r s) (hn : 
   · intro bit
     obtain ⟨smp, hint, e, hh⟩ := h.samples bit
     rw [e]
-    have hp : RSN.per bit = 1024 := by cases bit <;> rfl
+    -- the only assumption on the period: `2 ≤ per` (the length may be anything below `2^64`,
+    -- so the padded length alone is not known to fit in 64 bits)
+    have hp : 2 ≤ RSN.per bit := by cases bit <;> decide
     have hC := C_le bit s (64 * (8 * nLines r.bv))
-    have hd : C bit s (64 * (8 * nLines r.bv)) / RSN.per bit ≤ 64 * (8 * nLines r.bv) / 1024 := by
-      rw [hp]; exact Nat.div_le_div_right hC
+    have hd : C bit s (64 * (8 * nLines r.bv)) / RSN.per bit ≤ 64 * (8 * nLines r.bv) / 2 :=
+      Nat.le_trans (Nat.div_le_div_left hp (by decide)) (Nat.div_le_div_right hC)
     rw [p64] at hn
     exact hint_samples_wf hh _ (nLines r.bv)
       (by rw [p64]; show C bit s (64 * (8 * nLines r.bv)) / RSN.per bit + 2 < _; omega)
@@ -274,10 +276,10 @@ theorem pfsWF_of_new {qv : QV.QVector} (hq : QV.Inv qv) (hl : QV.len qv < 2 ^ 43
     have := PfsP.mOf_le (Nat.le_refl (QV.abs qv).length)
     have h2 : (2:Nat) ^ 43 < 2 ^ 64 := by decide
     omega
-  have hp : PFS.new qv Extracted.pfsSampleShift = .ok ⟨PfsP.mk4 r, 11⟩ := by
+  have hp : PFS.new qv Extracted.pfsSampleShift = .ok ⟨PfsP.mk4 r, Extracted.pfsSampleShift⟩ := by
     unfold PFS.new
-    rw [show (1 <<< Extracted.pfsSampleShift : Nat) = 2048 from rfl, QV.len_ok]
-    show (List.foldlM (PFS.buildStep qv 2048) { } (List.range (QV.abs qv).length) >>= _) = _
+    rw [PfsP.one_shiftLeft_shift, QV.len_ok]
+    show (List.foldlM (PFS.buildStep qv PfsP.rate) { } (List.range (QV.abs qv).length) >>= _) = _
     rw [eb, PfsP.ok_bind]
     show (PfsP.mk4 bv).mapM RSN.new >>= _ = _
     rw [PfsP.mapM4 RSN.new bv r (fun k hk => (hr k hk).1)]
@@ -288,7 +290,7 @@ theorem pfsWF_of_new {qv : QV.QVector} (hq : QV.Inv qv) (hl : QV.len qv < 2 ^ 43
   · show (4 : Nat) < 2 ^ 64
     decide
   rotate_left
-  · show (11 : Nat) < 2 ^ 64
+  · show Extracted.pfsSampleShift < 2 ^ 64
     decide
   intro x hx
   have hx' : x ∈ [r 0, r 1, r 2, r 3] := hx
